@@ -51,6 +51,8 @@ type RWMutex struct {
 }
 
 func (m *RWMutex) Lock() {
+	// scheduling point before the writer announces itself (the announcement already blocks new readers)
+	Yield("wlock-enter")
 	m.writersWaiting++
 	block("wlock", "a write lock", func() bool { return !m.writer && m.readers == 0 })
 	m.writersWaiting--
